@@ -78,13 +78,19 @@ def gen_profile(rng, small=False):
             cu = rand_uuid(rng, U16_CHR).hex()
             if used and rng.random() < 0.3:
                 # the SAME characteristic UUID again (legal, e.g. HID Report), other properties / security / value
-                cu, p0 = rng.choice(used)
+                cu, p0, ch0 = rng.choice(used)
                 if (p0 & (P_NOTIFY | P_INDICATE)) and rng.random() < 0.6:
                     props = p0      # homonyms that can both be subscribed to
-            if len(cu) == 4:
-                used.append((cu, props))
+            else:
+                ch0 = None
             ch = {"handle": h, "uuid": cu, "props": props,
                   "sec": rng.choice(SECS), "value": rand_bytes(rng, rand_vlen(rng)).hex(), "descs": []}
+            if ch0 is not None and rng.random() < 0.5:
+                # homonyms with short values of the same length (several of them fit in one list response)
+                L = rng.randrange(0, 9)
+                ch0["value"], ch["value"] = rand_bytes(rng, L).hex(), rand_bytes(rng, L).hex()
+            if len(cu) == 4:
+                used.append((cu, props, ch))
             h += 2
             last = h - 1
             want_cccd = (props & (P_NOTIFY | P_INDICATE)) and rng.random() < 0.9 or rng.random() < 0.08
@@ -429,7 +435,7 @@ class HistoryGen:
             off = rng.choice([0, 1, L, L, max(0, L - 1), L + 1, m - 1, rng.randrange(0, 600), 0xFFFF])
             return ("ReadBlob", h, off & 0xFFFF)
         if k < 58:
-            return ("ReadMultiple", [self.handle() for _ in range(rng.randrange(1, 4))])
+            return self.read_multiple()
         if k < 66:
             s, e = self.range()
             return ("ReadByGroupType", s, e, rng.choice([0x2800, 0x2800, 0x2801, 0x2802, 0x2803, 0x2902, 0x2901,
@@ -467,6 +473,17 @@ class HistoryGen:
             op = rng.choice(KNOWN_REQUESTS)
             return ("UnknownOp", op, rand_bytes(rng, rng.randrange(0, 2) if op != 0x18 else 0))
         return ("UnknownOp", rng.choice([0x20, 0x20, 0x22, 0x3A, 0x14, 0xA0, 0x00]), rand_bytes(rng, rng.randrange(0, 5)))
+
+    def read_multiple(self):
+        """Read Multiple Request: any handles, or (half of the time) existing attributes that can be read over an
+        unprotected link -- the same one several times included -- so that their values add up beyond the MTU"""
+        rng = self.rng
+        easy = [r["handle"] for r in self.rows
+                if r["kind"] in ("KDesc", "KPrimary", "KSecondary", "KDecl", "KCccd")
+                or (r["kind"] == "KValue" and (r["props"] & 2) and not (r["sec"] & 0x0F))]
+        if easy and rng.random() < 0.5:
+            return ("ReadMultiple", [rng.choice(easy) for _ in range(rng.randrange(2, 6))])
+        return ("ReadMultiple", [self.handle() for _ in range(rng.randrange(1, 4))])
 
     def response_pdu(self):
         """a well-formed RESPONSE-type PDU sent by the client although the server asked nothing (a server queues
@@ -734,6 +751,8 @@ class HistoryGen:
                     evs.append({"op": "req", "req": ("ReadByGroupType", 1, 0xFFFF, 0x2800), "hooks": {}})
                 elif x < 0.8:
                     evs.append({"op": "req", "req": ("ReadByType", 1, 0xFFFF, 0x2803), "hooks": {}})
+                elif x < 0.9:
+                    evs.append({"op": "req", "req": self.read_multiple(), "hooks": {}})
                 else:
                     evs.append(self.event())
         return evs
